@@ -84,6 +84,15 @@ func (r *chunkedReader) Read(p []byte) (n int, err error) {
 				if err := r.expect("\r\n"); err != nil {
 					return n, err
 				}
+				// Nothing may follow, and the body has to end cleanly: it is
+				// an error (IncompleteBody) if it is shorter than its
+				// Content-Length says.
+				var next [1]byte
+				if _, err := io.ReadFull(r.inner, next[:]); err == nil {
+					return n, errChunkFraming
+				} else if err != io.EOF {
+					return n, unexpectedEOF(err)
+				}
 				r.sawLastChunk = true
 			}
 		}
